@@ -85,7 +85,8 @@ def build(variant, scratch, targets=None):
     if os.path.exists(root):
         shutil.rmtree(root)
     env = dict(os.environ)
-    env["CC"] = cc
+    env["CC"] = os.path.join(VERIF, "bin", "ccwrap")     # the real compiler without -Werror
+    env["VERIF_REAL_CC"] = cc
     cfg = ["cmake", "-G", "Ninja", "-S", REPO, "-B", root, "-DBUILD_TESTING=OFF",
            "-DUSE_MPI=OFF", "-DCMAKE_INTERPROCEDURAL_OPTIMIZATION=OFF",
            "-DCMAKE_BUILD_TYPE=None", "-DOVNI_GIT_COMMIT=verif",
